@@ -313,6 +313,19 @@ impl<'a> Inst<'a> {
                 out.insert(r.clone(), json!("undeclared-required"));
             }
         }
+        // constrained keys: members keyed by strings that satisfy the key pattern
+        if let Some(pat) = s.get("propertyNames").and_then(|p| p.get("pattern")).and_then(|p| p.as_str()).and_then(find_pattern) {
+            let n = if budget <= 0 { 0 } else { 1 + g.below(2) };
+            let max = s["propertyNames"].get("maxLength").and_then(|m| m.as_u64()).unwrap_or(u64::MAX);
+            for k in pat.good.iter().filter(|k| (k.chars().count() as u64) <= max).take(n) {
+                let v = match s.get("additionalProperties") {
+                    Some(ap @ Value::Object(_)) => self.gen(g, ap, budget - 1),
+                    _ => json!(1),
+                };
+                out.insert(k.to_string(), v);
+            }
+            return Value::Object(out);
+        }
         match s.get("additionalProperties") {
             Some(Value::Bool(false)) => {}
             Some(ap @ Value::Object(_)) => {
@@ -392,6 +405,13 @@ pub fn mutants_opt(g: &mut G, v: &Value, limit: usize, nulls: bool) -> Vec<(Stri
                 let mut m = o.clone();
                 m.insert("zz_undeclared".into(), json!(1));
                 edits.push(("add-member".into(), Some(Value::Object(m))));
+                // a member under a key no key pattern of the grammar admits
+                if let Some((k, x)) = o.iter().next() {
+                    let mut m = o.clone();
+                    m.remove(k);
+                    m.insert("Bad Key! 9".into(), x.clone());
+                    edits.push(("rename-key".into(), Some(Value::Object(m))));
+                }
                 edits.push(("swap-type".into(), Some(json!("not-an-object"))));
             }
             Value::Array(a) => {
